@@ -1,0 +1,5 @@
+//go:build !verif
+
+package spynode
+
+func verifPoint(point string) {}
